@@ -26,6 +26,7 @@ import errno
 import os
 import pickletools
 import queue
+import re
 import shutil
 import tempfile
 import threading
@@ -51,7 +52,8 @@ RULE = (
     "calls); the pickle frame headers/ends, the write-call boundaries, the start/end of every payload "
     "> 256 bytes (the serialised CasADi functions), the first 16 and last 4 offsets of every "
     "model are always included.  write_crash: every write() call k of pickle.dump raises "
-    "(k=1: file opened, nothing written), with and without a short write of half the chunk.  "
+    "(k=1: file opened, nothing written), with and without a short write of half the chunk, in a clean folder and as a "
+    "re-write over the complete cache of an older version of the source.  "
     "interleave: every (pa, pb): writer paused after pa = 0..W of its W writes, reader runs to "
     "completion (pb=-1) or is itself paused after pb = 0..W writes of its re-save while the "
     "first writer finishes.  codegen (4 cases per quick run, spread over kind x model x "
@@ -542,7 +544,24 @@ def check_write_crash(w, case):
     name, mode = case["model"], case["mode"]
     k, partial = int(case["k"]), bool(case.get("partial", False))
     d = w.folder(name)
+    prior = False
     try:
+        if case.get("prior"):
+            # the folder already holds a COMPLETE cache of an older version of the source (one literal differs);
+            # the source is then rewritten with a later mtime, so that the crashing call is a re-write over that file
+            mo = d / (name + ".mo")
+            old_text = re.sub(r"(\d+\.\d+)", lambda mt: repr(float(mt.group(1)) + 1.0), POOL[name][0], count=1)
+            if old_text != POOL[name][0]:
+                mo.write_text(old_text)
+                os.utime(mo, (w.t0, w.t0))
+                m0 = w.api.transfer_model(str(d), name, options(name, mode))
+                cf0 = w.cache_file(d, name)
+                if isinstance(m0, w.api.CachedModel) or not cf0.exists():
+                    raise RuntimeError("C21 harness: could not prepare the older cache of %s" % name)
+                os.utime(cf0, (w.t0 + 60, w.t0 + 60))
+                mo.write_text(POOL[name][0])
+                os.utime(mo, (w.t0 + 120, w.t0 + 120))
+                prior = True
         plan = Plan(crash_at=k, partial=partial)
         outcome = "returned"
         with patched_open(w.api, {None: plan}):
@@ -557,13 +576,17 @@ def check_write_crash(w, case):
         w.ctx.extra["crashed_call_" + outcome] += 1
         cf = w.cache_file(d, name)
         left = cf.stat().st_size if cf.exists() else -1
-        what = "%s %s: write %d raised%s, %d bytes left behind" % (name, mode, k, " after a short write" if partial else "", left)
+        what = "%s %s: write %d raised%s, %d bytes left behind%s" % (
+            name, mode, k, " after a short write" if partial else "", left,
+            " (re-write over the complete cache of an older source version)" if prior else "")
         judge_after_fault(w, d, name, mode, "write_crash", case_seed(case), True, what)
     finally:
         w.drop(d)
     total = sum(plan.writes)
     nt = plan.crashed and left > 0
     labels = ["write_crash", "write_crash:" + mode]
+    if prior:
+        labels.append("write_crash:over_older_complete_cache")
     if not plan.crashed:
         labels.append("write_crash:k_beyond_last_write")
     elif left == 0:
@@ -748,8 +771,8 @@ def shard(ctx):
         special = [{"model": name, "mode": "cache", "fault": "truncate", "n": n, "full": True} for n in infos[name]["interesting"]]
         run_list(ctx, mine(ctx, name, special, salt=ctx.seed))
         # 1. every write() call crashes (with/without a short write); nw + 1: control, nothing crashes
-        crash = [{"model": name, "mode": "cache", "fault": "write_crash", "k": k, "partial": partial}
-                 for k in range(1, nw + 2) for partial in (False, True) if not (k == nw + 1 and partial)]
+        crash = [{"model": name, "mode": "cache", "fault": "write_crash", "k": k, "partial": partial, "prior": prior}
+                 for k in range(1, nw + 2) for partial in (False, True) for prior in (False, True) if not (k == nw + 1 and partial)]
         run_list(ctx, mine(ctx, name, crash, salt=ctx.seed))
         # 2. every reader/writer schedule at write-call granularity
         sched = [{"model": name, "mode": "cache", "fault": "interleave", "pa": pa, "pb": pb}
